@@ -271,6 +271,11 @@ func zsetScripts() [][][]string {
 			{"zunionstore", "k3", "k1", "AGGREGATE"}, {"zinterstore", "k3", "k1", "k2", "weights", "2", "10", "aggregate"}, {"zunion", "k1", "k2", "withscores", "aggregate"},
 			{"zpopmin", "k1", "0"}, {"zpopmax", "k1", "0"}, {"zrandmember", "k1", "0"}, {"zrandmember", "k1", "0", "withscores"}, {"zpopmin", "k9", "0"},
 			{"zpopmax", "k1", "-1"}, {"zrange", "k1", "-inf", "+inf", "withscores"}, {"zpopmin", "k1", "1"}, {"zrange", "k1", "-inf", "+inf", "withscores"}},
+		// a destination spelled like the command word (regression of a repaired defect: the STORE forms deleted the command
+		// word along with the destination and panicked on what was left), and a destination that is also a source
+		{{"zadd", "k1", "1", "a", "2", "b"}, {"zadd", "d", "5", "a", "7", "z"}, {"zunionstore", "zunionstore", "weights"}, {"zunionstore", "zunionstore", "k1"},
+			{"zunionstore", "zunionstore", "weights"}, {"zinterstore", "zinterstore", "k1", "k1"}, {"zinterstore", "ZINTERSTORE", "k1", "k1", "AGGREGATE"},
+			{"zunionstore", "d", "d", "k1"}, {"zrange", "d", "-inf", "+inf", "withscores"}, {"zrange", "zunionstore", "-inf", "+inf", "withscores"}},
 		probe("zunionstore", "k3", "k1"),
 		probe("zunionstore", "k3", "k1", "k9"),
 		probe("zunionstore", "k3", "k1", "weights", "1"),
